@@ -269,3 +269,71 @@ def char_class_of_single_set(sub):
     if len(data) == 1 and data[0][0] is C.LITERAL:
         return CharSet([(data[0][1], data[0][1])])
     return None
+
+
+def locate_group(sub, gid):
+    """-> (items of the group, chain) where chain lists, from the root down,
+    the (sequence, index) positions that lead to the group; None if the
+    pattern has no such capturing group."""
+    def walk(items, chain):
+        items = list(items)
+        for i, (op, av) in enumerate(items):
+            here = chain + [(items, i)]
+            if op is C.SUBPATTERN:
+                if av[0] == gid:
+                    return av[3], here
+                r = walk(av[3], here)
+            elif op is C.BRANCH:
+                r = None
+                for alt in av[1]:
+                    r = r or walk(alt, here)
+            elif op in (C.MAX_REPEAT, C.MIN_REPEAT) or \
+                    str(op) == "POSSESSIVE_REPEAT":
+                r = walk(av[2], here)
+            else:
+                r = None
+            if r:
+                return r
+        return None
+    return walk(sub, [])
+
+
+def all_chars(items):
+    """union of the characters the items can consume (repeats, groups and
+    alternatives descended into)"""
+    cs = CharSet()
+    for op, av in items:
+        if op is C.IN:
+            cs = cs | in_set(av)
+        elif op is C.LITERAL:
+            cs = cs | CharSet([(av, av)])
+        elif op is C.NOT_LITERAL:
+            cs = cs | CharSet([(av, av)]).complement()
+        elif op is C.ANY:
+            cs = cs | CharSet.full()
+        elif op is C.BRANCH:
+            for alt in av[1]:
+                cs = cs | all_chars(alt)
+        elif op in (C.MAX_REPEAT, C.MIN_REPEAT) or \
+                str(op) == "POSSESSIVE_REPEAT":
+            cs = cs | all_chars(av[2])
+        elif op is C.SUBPATTERN:
+            cs = cs | all_chars(av[3])
+    return cs
+
+
+def implied_before(sub, gid, ch):
+    """Does participation of group ``gid`` imply that the single character
+    ``ch`` was consumed by a mandatory item in front of it (a preceding
+    sibling of the group or of one of its ancestors)?"""
+    loc = locate_group(sub, gid)
+    if loc is None:
+        return False
+    want = CharSet([(ord(ch), ord(ch))])
+    for items, idx in loc[1]:
+        for op, av in items[:idx]:
+            one = [(op, av)]
+            info = analyse(one)
+            if not info.nullable and all_chars(one) == want:
+                return True
+    return False
